@@ -16,7 +16,7 @@ import time
 HERE = os.path.dirname(os.path.abspath(__file__))
 VERIF = os.path.dirname(HERE)
 CACHE = os.environ.get('CAPCHECK_CACHE', os.path.join(VERIF, '.cache'))
-TOOL_VERSION = '9'
+TOOL_VERSION = '10'
 
 CONTAINERS = ['lru_cache', 'mru_cache', 'rr_cache', 'fifo_cache', 'lfu_cache', 'lfuda_cache',
               'tlru_cache', 'utlru_cache', 'ut_map', 'ut_set']
